@@ -96,10 +96,14 @@ claimed.update({
                 note="Outside (stated): Controller.servicesMap, endpoint conversion, EDS shards, aggregate registry, informer/queue machinery, cold-start equivalence of the whole registry. This is a partial check of C15.", ref="§4 C15"),
 })
 
+claimed.update({
+    "C16": dict(text="Thin: the real krt runtime (two static input collections, one derived manyCollection whose transformation fetches the second collection through a label filter and may produce nothing, one registered handler) is executed with all its goroutines under delay-bounded schedules "
+                     "for every history of 3 input changes (primary/secondary upsert and delete, labels from a 2-value menu, symbolic values): after quiescence List/GetKey equal the transformation of the current inputs, and the handler's event stream obeys the contract "
+                     "(add of unknown keys only, update/delete of known keys only, update.Old = last delivered object) and replays to the final contents; handler registered before or after the changes.",
+                note="Outside (stated): informer-backed collections, joins, nested join/merge, singletons, indexes, one-to-many transformations, long histories, schedules beyond the delay bound. This is a partial check of C16.", ref="§4 C16"),
+})
+
 na = {
-    "C16": "krt (pkg/kube/krt) is built from generics instantiated over interface-typed collections, reflection-driven equality, unbounded goroutine/queue fan-out per handler and informer machinery; "
-           "a symbolic run needs hundreds of thousands of interpreted instructions per event before the first branch on input and the per-handler queues multiply schedules beyond the pre-emption bound the engine can cover; "
-           "the property is about long random histories against an independent recomputation, which is a testing/model-based technique, not a bounded solver query over the real code. Not attempted with this technique.",
 }
 
 def main():
